@@ -194,3 +194,18 @@ pub fn builder_twin_must_fail() {
     std::mem::forget(b);
     assert!(false, "twin: reachable end of harness");
 }
+
+/// C02: `get_result` hands over the node on TOP of the result stack (after a failed parse
+/// earlier nodes may still be below it). Two leaves, one call; nothing else is dropped by
+/// the harness.
+#[kani::proof]
+#[kani::unwind(4)]
+pub fn get_result_top_of_2() {
+    let mut b: TB = TreeBuilder::new();
+    let mut ids: [Option<Id>; 5] = [None; 5];
+    shift_k(&mut b, &mut ids, 2);
+    let top = b.get_result();
+    assert!(Some(id_of(&top)) == ids[1], "C02 the result is the node on top of the stack");
+    std::mem::forget(top);
+    std::mem::forget(b);
+}
